@@ -244,6 +244,13 @@ def havoc_loop_state(eng, nodes, fr, spec, extra_names=()):
                 continue
             cur = fr.vars[nm]
         k = types.get(nm) if isinstance(types.get(nm), str) else None
+        rb = (spec or {}).get("rebind", {}).get(nm)
+        if rb is not None and not isinstance(cur, (SArr, PList, PDict, NArr)):
+            # a name the loop rebinds to an object / an optional object (`while child is not None: child = ...`): the loop
+            # contract says what it may hold at the loop head
+            if any(isinstance(x, ast.Name) and isinstance(x.ctx, ast.Store) and x.id == nm for x in _walk_no_defs(nodes)):
+                fr.store(nm, rb(eng, cur))
+                continue
         if isinstance(cur, Sym):
             fr.store(nm, fresh(k or cur.kind, nm))
         elif kind_of(cur) is not None:
